@@ -584,6 +584,28 @@ def _common_wiring(ctx, P: str):
            "degrees=True)" if ok else
            "motion filter is not applied to both trajectories with "
            "(distance, angle, degrees=True)", key=f"{_R(P, 5)}:dof:motion")
+    # each step runs exactly when its own option is given
+    for name, evs, opt, other in (("downsample", ds, "downsample",
+                                   "motion_filter"),
+                                  ("motion filter", mf, "motion_filter",
+                                   "downsample")):
+        def given(t, opt=opt, other=other, on=True):
+            if t is A(opt):
+                return on
+            if t is A(other):
+                return False
+            if is_call_to(t, "builtins.isinstance"):
+                return True
+            return None
+        alone = [tm.fold(e.live, given) for e in evs]
+        off = [tm.fold(e.live, lambda t: given(t, on=False)) for e in evs]
+        ok = bool(evs) and all(v is not False for v in alone) and \
+            all(v is False for v in off)
+        ctx.ob(_R(P, 5), f, ok,
+               f"{name}: runs with --{opt} alone and not without it" if ok
+               else f"{name}: does not run exactly when --{opt} is given "
+                    f"({[fmt(e.live)[:80] for e in evs]})",
+               key=f"{_R(P, 5)}:dof:{opt}:enabled")
     # load_trajectories: roles per sub-command
     f = prog.func("evo.common_ape_rpe.load_trajectories")
     roles = {"tum": ("ref_file", "est_file"),
